@@ -162,25 +162,32 @@ def run_input(ctx, i):
         return [aa.reg.Constant(coefficient=float(r.uniform(0.2, 2.0))), aa.reg.Zeroth(coefficient=float(r.uniform(0.3, 2.0)))][int(r.integers(2))]
 
     only_functions = (i % 4 == 3)     # inversions of function lists alone (always the mapping formalism, single regularization fast path)
-    if only_functions:
-        objs, desc = gen_aa.linear_objects(aa, rng, case, nobj=1 if i % 8 == 3 else 2, kinds=("func",), allow_unregularized=False)
-        for o_, d_ in zip(objs[1:], desc[1:]):
-            if rng.random() < 0.5:
-                o_.regularization = None
-                d_["regularized"] = False
-    else:
-        objs, desc = gen_aa.linear_objects(aa, rng, case, allow_unregularized=True, reg_factory=regf, overrides=True)
-    if not only_functions and not any(d["kind"] != "func" for d in desc):            # the w-tilde formalism needs at least one mapper
-        mp, d = gen_aa.mapper(aa, rng, case["mask"], case["ds"].grids.pixelization.over_sampler, "rect", aa.reg.Constant(coefficient=1.0))
-        d.update({"params": int(mp.params), "regularized": True})
-        objs.append(mp)
-        desc.append(d)
-    if not any(d["regularized"] for d in desc):
-        for o, d in zip(objs, desc):
-            if d["kind"] != "func":
-                o.regularization = aa.reg.Constant(coefficient=0.7)
-                d["regularized"] = True
-                break
+
+    def make_objs(rng):
+        if only_functions:
+            objs, desc = gen_aa.linear_objects(aa, rng, case, nobj=1 if i % 8 == 3 else 2, kinds=("func",), allow_unregularized=False)
+            for o_, d_ in zip(objs[1:], desc[1:]):
+                if rng.random() < 0.5:
+                    o_.regularization = None
+                    d_["regularized"] = False
+        else:
+            objs, desc = gen_aa.linear_objects(aa, rng, case, allow_unregularized=True, reg_factory=regf, overrides=True)
+        if not only_functions and not any(d["kind"] != "func" for d in desc):            # the w-tilde formalism needs at least one mapper
+            mp, d = gen_aa.mapper(aa, rng, case["mask"], case["ds"].grids.pixelization.over_sampler, "rect", aa.reg.Constant(coefficient=1.0))
+            d.update({"params": int(mp.params), "regularized": True})
+            objs.append(mp)
+            desc.append(d)
+        if not any(d["regularized"] for d in desc):
+            for o, d in zip(objs, desc):
+                if d["kind"] != "func":
+                    o.regularization = aa.reg.Constant(coefficient=0.7)
+                    d["regularized"] = True
+                    break
+        return objs, desc
+
+    import copy as _copy
+    rng_at_objects = _copy.deepcopy(rng)
+    objs, desc = make_objs(rng)
     ds = case["ds"]
 
     def twin():
@@ -327,6 +334,55 @@ def run_input(ctx, i):
                 ctx.check(not bad, "preload.transparent", rep=rep, differing=bad, slots_filled=filled, got={k: q[k] for k in bad[:2]}, expected={k: ref[k] for k in bad[:2]}, **W)
             ctx.case(case["m"], case["k"], case["d"], tagf, prod, nontrivial=bool(filled), cls=["formalism:" + tagf, "producer:" + prod] + ["producer_filled:" + k for k in filled],
                      sample=lambda: {"objects": desc, "formalism": tagf, "producer": prod, "slots_filled": filled})
+    # the three dictionary slots (operated mapping matrices per function list / per mapper, data-vector terms per function list),
+    # taken from an inversion of EQUAL BUT SEPARATELY CONSTRUCTED linear objects (a later fit re-creates its mappers and profiles):
+    # the dictionaries are keyed by the objects they were computed from and must be matched to the objects of the new inversion
+    if not only_functions and any(d["kind"] == "func" for d in desc):
+        objs_other, _ = make_objs(_copy.deepcopy(rng_at_objects))
+        for use_w in (False, True):
+            tagf = "w_tilde" if use_w else "mapping"
+            if tagf not in per_formalism:
+                continue
+            ref = per_formalism[tagf]
+            st = aa.SettingsInversion(use_w_tilde=use_w, use_positive_only_solver=positive, no_regularization_add_to_curvature_diag_value=1e-3)
+            reg_idx = np.concatenate([np.arange(a, b) for (a, b), d in zip(_ranges(objs), desc) if d["regularized"]]).astype(int)
+            A_ = (ref["F"] + ref["H"])[np.ix_(reg_idx, reg_idx)]
+            Hr_ = ref["H"][np.ix_(reg_idx, reg_idx)]
+            tolc = 1e-9 * abs(ref["logdet_c"]) + 1e-14 * len(reg_idx) * float(np.linalg.cond(A_)) + 1e-12
+            tolh = 1e-9 * abs(ref["logdet_h"]) + 1e-14 * len(reg_idx) * float(np.linalg.cond(Hr_)) + 1e-12
+            try:
+                src = aa.Inversion(dataset=twin(), linear_obj_list=objs_other, settings=st)
+                dicts = {}
+                for nm in ("linear_func_operated_mapping_matrix_dict", "data_linear_func_matrix_dict", "mapper_operated_mapping_matrix_dict"):
+                    try:
+                        v = getattr(src, nm)
+                    except (NotImplementedError, AttributeError):
+                        continue
+                    if isinstance(v, dict) and len(v):
+                        dicts[nm] = v
+            except aa.exc.InversionException:
+                ctx.skipped["dict_slots:InversionException"] += 1
+                continue
+            names = sorted(dicts)
+            for subset in [c for r in range(1, len(names) + 1) for c in itertools.combinations(names, r)]:
+                if not ctx.begin("inp:%d:%s:dicts:%s" % (i, tagf, "+".join(subset))):
+                    continue
+                W = dict(formalism=tagf, dictionary_slots=list(subset), keyed_by="equal objects constructed separately", **W0)
+                pre = aa.Preloads(**{k: dicts[k] for k in subset})
+                for rep in range(2):
+                    try:
+                        q = outputs(aa, aa.Inversion(dataset=twin(), linear_obj_list=objs, settings=st, preloads=pre))
+                    except aa.exc.InversionException:
+                        ctx.skipped["dict_slots:InversionException"] += 1
+                        break
+                    except Exception as e:
+                        ctx.check(False, "preload.transparent", rep=rep, exception=repr(e)[:300], **W)
+                        break
+                    bad = same(ctx, q, ref, tolc, tolh, positive)
+                    ctx.check(not bad, "preload.transparent", rep=rep, differing=bad, got={k: q[k] for k in bad[:2]}, expected={k: ref[k] for k in bad[:2]}, **W)
+                ctx.case(case["m"], case["k"], case["d"], tagf, subset, "dicts", nontrivial=True,
+                         cls=["formalism:" + tagf] + ["dict_slot:" + k for k in subset],
+                         sample=lambda: {"objects": desc, "formalism": tagf, "dictionary_slots": list(subset)})
     # the factory's choice changes only performance: values equal across formalisms, and preloads.use_w_tilde selects the same classes
     if len(per_formalism) == 2 and ctx.begin("inp:%d:formalisms" % i):
         a, b = per_formalism["mapping"], per_formalism["w_tilde"]
